@@ -320,6 +320,13 @@ func universe() []Val {
 		x.Field(0).SetString(secStr[v])
 		return x.Interface()
 	}))
+	// --- several classifications at once (see dblSafeT)
+	add(sv("registered+SafeValue elements before a secret", true, func(v int) interface{} {
+		return []interface{}{dblSafeT(7), secStr[v], []dblSafeT{1, 2}, secInt[v], map[dblSafeT]string{3: secPlain[v]}, struct {
+			D dblSafeT
+			S string
+		}{4, secStr[v]}}
+	}))
 	// --- reflect.Value
 	add(sv("reflect(int)", true, func(v int) interface{} { return reflect.ValueOf(secInt[v]) }))
 	add(sv("reflect(string)", true, func(v int) interface{} { return reflect.ValueOf(secStrLF[v]) }))
@@ -327,6 +334,23 @@ func universe() []Val {
 	add(sv("reflect(zero)", true, func(v int) interface{} { return reflect.Value{} }))
 	add(sv("reflect(nilmap)", true, func(v int) interface{} { return reflect.ValueOf(map[string]int(nil)) }))
 	add(sv("reflect(unexported field)", true, func(v int) interface{} { return reflect.ValueOf(structT{1, secStr[v], nil}).Field(1) }))
+	// reflect.Value operands of kind Interface (taken from an interface-typed variable, field, element): the
+	// printer sees an Interface-kind value at depth 0, which reflect.ValueOf(x) never produces
+	add(sv("reflect(interface holding string/int)", true, func(v int) interface{} {
+		var a interface{} = secStr[v]
+		return reflect.ValueOf(&a).Elem()
+	}))
+	add(sv("reflect(interface field of struct)", true, func(v int) interface{} {
+		return reflect.ValueOf(structT{1, "b", secStr[v]}).Field(2)
+	}))
+	add(sv("reflect(nil interface)", true, func(v int) interface{} {
+		var a interface{}
+		return reflect.ValueOf(&a).Elem()
+	}))
+	add(sv("reflect(interface holding *struct)", false, func(v int) interface{} {
+		var a interface{} = &structInner{secInt[v], 2}
+		return reflect.ValueOf(&a).Elem()
+	}))
 	// --- method-bearing
 	m := func(name string, fmtOK bool, mk func(v int) interface{}) Val {
 		return Val{Name: name, Mk: mk, Fmt: fmtOK}
@@ -339,6 +363,14 @@ func universe() []Val {
 	add(m("errors.New", true, func(v int) interface{} { return errors.New(secStr[v]) }))
 	add(m("wrapErr", true, func(v int) interface{} { return wrapErrT{secPlain[v], errT{secStr[v]}} }))
 	add(m("(*errT)(nil)", true, func(v int) interface{} { return (*errT)(nil) }))
+	add(m("reflect(interface holding error)", true, func(v int) interface{} {
+		var e error = errT{secStr[v]}
+		return reflect.ValueOf(&e).Elem()
+	}))
+	add(m("reflect(interface elements holding Stringer/Formatter/GoStringer)", true, func(v int) interface{} {
+		xs := []interface{}{strT{secStr[v]}, fmtT{secPlain[v]}, goT{secStr[v]}}
+		return []interface{}{reflect.ValueOf(xs).Index(0), reflect.ValueOf(xs).Index(1), reflect.ValueOf(xs).Index(2)}
+	}))
 	add(m("GoStringer", true, func(v int) interface{} { return goT{secStrLF[v]} }))
 	add(m("Formatter", true, func(v int) interface{} { return fmtT{secStrLF[v]} }))
 	add(m("Formatter via io.WriteString", true, func(v int) interface{} { return fmtWST{secStrLF[v]} }))
@@ -515,3 +547,19 @@ func fmtUniverse() []Val {
 }
 
 func nan() float64 { return math.NaN() }
+
+// dblSafeT is safe twice over: it has the SafeValue marker method AND the checks that use it register its type
+// (dblSafeRegister). A value must not become "more" than safe by being classified twice.
+type dblSafeT int
+
+func (dblSafeT) SafeValue() {}
+
+type dblSafeStrT struct{ s string }
+
+func (dblSafeStrT) SafeValue()       {}
+func (d dblSafeStrT) String() string { return "D<" + d.s + ">" }
+
+func dblSafeRegister() {
+	redact.RegisterSafeType(reflect.TypeOf(dblSafeT(0)))
+	redact.RegisterSafeType(reflect.TypeOf(dblSafeStrT{}))
+}
